@@ -19,10 +19,10 @@ KNames (asl: -L, -D A=2, -D B=7, -D without argument, -cpu Z80, -i p1, -o o1, -g
 reference) and <= 3 of K3Names into a key file in every SHAPE [cut, eol, term, deco, from]:
   cut   n occurrences on 1..n lines (all compositions)            eol   LF / CR-LF / alternating
   term  line end behind the last line or not                      from  @k on the command line / ASCMD=@k
-  deco  none; blank / tab / blanks + tab in front; 3 blanks, tab, blank + tab, tab + blank between; blanks / tab / blank + tab /
-        tab + blank behind; an empty line first / between / last; a last line of blanks only; a remark line first / last;
-        ^Z as the last byte / in front of every line end; first / last line filled with blanks to 255 (the manual's maximum),
-        254 and 256 characters
+  deco  none; blank / tab / blanks + tab in front; 3 blanks, tab, blank + tab, tab + blank between; blanks / tab / blank + tab
+        behind; an empty line first / between / last; a last line of blanks only; a remark line first / last; ^Z as the last
+        byte / in front of every line end; first / last line filled with blanks to 255 (the manual's maximum) and 254
+        characters; a last line whose first word + blanks fill the reader's buffer (the rest arrives as another line)
 (no occurrence: the empty file, one line end, one blank, one remark without line end, one ^Z ...), and checks
   ReaderReadsText      the chunks ProcessFile decodes are the lines of the text (every shape within 255 characters per line)
   ScanIsFoldK          the scanner behind the reader, named deviations repaired, = Meaning(Parse(Flatten(text)))
@@ -37,14 +37,18 @@ file is compared with the command line, ASCMD and the key files of CmdLine_Gen t
 Verdicts as there: the manual-stated components of the outcome and byte-identical code files within a klass; shapes the manual
 does not decide (^Z anywhere, a line beyond 255 characters: `open`) and shapes where BlankBeforeTab is live are compared with
 the model only (SPEC-DRIFT).
-quick:    asl, KThin = 3 (two and more occurrences: every (cut, term) with the plain decoration and 3 rotating ones; line end
-          and `from` rotate; single occurrences and the empty sequence meet all 24 decorations): 3 320 shaped files + 160
-          command lines, 160 states, about 20 s of TLC beside the other generators.
-thorough: asl with every shape (KThin = 0: 2 x 3 x 2 x 24 x 2 shapes per composition), p2bin and plist with KThin = 3.
+quick:    asl, KThin = 2 (two and more occurrences: every (cut, term) with the plain decoration and 2 rotating ones; line end
+          and `from` rotate; single occurrences and the empty sequence meet all 23 decorations): 160 states, 2 628 shaped files
+          + 160 command lines, 10 - 30 s of TLC beside the other generators, about 15 s more replay.
+thorough: KeyFile_MC asl with EVERY shape (KThin = 0: 2 x 3 x 2 x 23 x 2 shapes per composition, 99 912 shaped files, 1 min 45);
+          cases: asl KThin = 6, p2bin (8 templates) and plist (5 templates) KThin = 3.
 Bounds: <= 3 lines of options; one decoration at a time; words are atoms (no blank inside an argument, no quoting - the
-manual has none); no line longer than 256 characters; one key-file level (nesting is an error by the manual, template @kd).
-No finding on the unchanged tree.  Mutations caught by the quick tier (exit 1): the seeded ProcessFile change (break when
-feof() is set after ReadLn()); ReadLn() not stripping the CR; ProcessFile's loop written `ReadLn(); while (!feof) {...; ReadLn();}`.
+manual has none); tab + blank BEHIND a line is left out (what a glued argument means is the callback's business); no line
+longer than 256 characters + the rest; one key-file level (nesting is an error by the manual, template @kd).
+No finding on the unchanged tree (0 violations, 0 drift).  Mutations tried on scratch copies (all pass the 201 golden tests),
+replay of the quick cases (`VERIF_REPO=...`): the seeded ProcessFile change (`if (feof(KeyFile)) break;` behind ReadLn();
+./check C17 --tier quick exits 1, 1 387 violations); strutil.c ReadLn() not stripping the CR (1 287 violations); cmdarg.c
+ClrBlanks() skipping blanks only, not tabs (325); ReadLn() with fgets(Zeile, 255, ...) (204, the lines of 255 characters).
 """
 import os
 
